@@ -9,6 +9,7 @@ NEC = ("Static analysis of the type-checked program (typed HIR of every function
        "It decides necessary structural conditions of the property, not the behaviour as a whole. ")
 
 FRONT_FRAME = ("error_container.rs", "build.rs", "semantic.rs", "lib.rs", "error.rs", "ast.rs", "table.rs", "parser.rs")
+PARSER_REF = " Every position a feature reports is built from Reference offsets: a Reference rebuilt by the parser carries the sum of the offsets it unwraps (FRAME S-ref in parser.rs / parser/utility.rs)."
 
 
 def files(*names):
@@ -23,31 +24,38 @@ prop("C01", NEC + "Clauses: positions handed to TokenChange queries are absolute
      "on every exit (SAVE-RESTORE); equality used for token reuse compares every field (EQ-COMPLETE); relocated "
      "tokens relocate their errors (TOKEN-ERRORS); the look-ahead table covers every extendable lexeme (T2); per change the "
      "text is edited, tokens updated against the new text and stored before the AST update (UPDATE-ORDER); the change window "
-     "is computed from head/new/tail lengths (RELEX-WINDOW).",
+     "is computed from head/new/tail lengths (RELEX-WINDOW); the re-analysis, which appends diagnostics, is only reached "
+     "after parser::update stripped the previous ones: no path skips it in the per-change step and an empty change list "
+     "is turned away (STRIP-REBUILD).",
      [{"rule": "TOKCHANGE-ARGS", "floor": 4}, {"rule": "REBUILD", "floor": 14}, {"rule": "STRIP-SET", "floor": 4},
       {"rule": "SAVE-RESTORE", "floor": 4}, {"rule": "EQ-COMPLETE", "floor": 43},
       {"rule": "TRAVERSE", "filter": tag("traverse"), "floor": 106},
       {"rule": "TOKEN-ERRORS", "floor": 2}, {"rule": "TABLES", "filter": tag("T2"), "floor": 17},
-      {"rule": "UPDATE-ORDER", "floor": 2}, {"rule": "RELEX-WINDOW", "floor": 6}])
+      {"rule": "UPDATE-ORDER", "floor": 3}, {"rule": "RELEX-WINDOW", "floor": 6}, {"rule": "STRIP-REBUILD", "floor": 2},
+      {"rule": "COMMENT-LEX", "floor": 5}])
 
 prop("C02", NEC + "Clauses: token-range to text-range conversions unwrap first()/last() only in the arm complementary "
      "to `range.is_empty()`; token byte ranges are taken from the consumed input, so they lie on character boundaries "
      "(TOKEN-RANGE-SOURCE); results of request-driven table lookups are never unwrapped and no handler panics on the "
      "kind of a looked-up entry (LOOKUP-NOPANIC); locations are produced only for user declarations (ENTRY-GUARD: "
-     "predefined entries have the empty range); the process is terminated only at the three sanctioned places.",
+     "predefined entries have the empty range); the process is terminated only at the three sanctioned places; "
+     "ranges handed to String::replace_range are computed against the very text they are applied to (TEXT-SYNC batch clauses: a stale "
+     "range is out of bounds or off a character boundary, and replace_range panics).",
      [{"rule": "EMPTY-RANGE-GUARD", "floor": 2}, {"rule": "LOOKUP-NOPANIC", "floor": 14},
       {"rule": "ENTRY-GUARD", "floor": 6}, {"rule": "WHO-MAY", "filter": tag("exit"), "floor": 5},
       {"rule": "TOKEN-RANGE-SOURCE", "floor": 11}, {"rule": "INDEX-ELEM", "floor": 30},
-      {"rule": "BUILTIN-SET", "floor": 2}])
+      {"rule": "BUILTIN-SET", "floor": 2}, {"rule": "TEXT-SYNC", "filter": tag("batch"), "floor": 4}])
 
 prop("C03", NEC + "Clauses: each of the 27 build/semantic message kinds has an emitting site under table::* and its own "
      "text (VARIANTS); every error is attached in the reference frame of the node that owns it and is shifted exactly "
      "once per Reference crossed on the way up (FRAME S6/S3/S4/S-shift in error_container.rs, build.rs, semantic.rs, "
      "lib.rs); every ErrorContainer impl descends into every child that can hold an AstInfo (TRAVERSE); type equality "
-     "used by the checker compares every field incl. the array creator (EQ-COMPLETE: SPL name equivalence).",
+     "used by the checker compares every field incl. the array creator (EQ-COMPLETE: SPL name equivalence); type expressions of type "
+     "declarations and parameters are resolved in the global scope, those of local variables in the procedure scope (SCOPE-ORDER typescope).",
      [{"rule": "VARIANTS", "floor": 54}, {"rule": "MESSAGE-SITE", "floor": 32},
       {"rule": "FRAME", "filter": files(*FRONT_FRAME), "floor": 212},
-      {"rule": "TRAVERSE", "filter": tag("errors", "analyze", "build"), "floor": 73}, {"rule": "EQ-COMPLETE", "floor": 43}])
+      {"rule": "TRAVERSE", "filter": tag("errors", "analyze", "build"), "floor": 73}, {"rule": "EQ-COMPLETE", "floor": 43},
+      {"rule": "SCOPE-ORDER", "filter": tag("typescope"), "floor": 3}])
 
 prop("C04", NEC + "Clauses: shape of the precedence-climbing parser (levels, loops, operand parsers, else binding) "
      "and agreement of parser levels with the operator classification used by the type checker (T5); raw token "
@@ -64,21 +72,24 @@ prop("C05", NEC + "Clauses: the five synchronisation sets are nested and all con
 
 prop("C06", NEC + "Clauses: alt(..) order vs. prefix relation of static lexemes (longest match), every static token "
      "lexed exactly once through the macro of its class, class order, exactly one Eof; token ranges are the ranges of the "
-     "consumed input (TOKEN-RANGE-SOURCE); the keyword boundary test uses the identifier continuation class (KEYWORD-BOUNDARY).",
+     "consumed input (TOKEN-RANGE-SOURCE); the keyword boundary test uses the identifier continuation class (KEYWORD-BOUNDARY); "
+     "the comment lexer's text class stops exactly at a line feed and cannot fail, its closer accepts the line feed and the end of "
+     "the text (COMMENT-LEX).",
      [{"rule": "TABLES", "filter": tag("T1", "T3"), "floor": 37}, {"rule": "EOF-ONCE", "floor": 3},
-      {"rule": "TOKEN-RANGE-SOURCE", "floor": 11}, {"rule": "KEYWORD-BOUNDARY", "floor": 2}])
+      {"rule": "TOKEN-RANGE-SOURCE", "floor": 11}, {"rule": "KEYWORD-BOUNDARY", "floor": 2}, {"rule": "COMMENT-LEX", "floor": 5}])
 
 prop("C07", NEC + "Clauses: a token relocated to a new range relocates its lexical errors too (TOKEN-ERRORS); the "
      "look-ahead table covers every lexeme that a following character can extend (T2); byte, char and UTF-16 lengths "
      "are not mixed in the shift arithmetic (LEN-UNITS); re-lexed tokens are shifted by the offset the text was cut at and the "
-     "change window is computed from head/new/tail lengths, result = head ++ new ++ tail ++ eof (RELEX-WINDOW).",
+     "change window is computed from head/new/tail lengths, result = head ++ new ++ tail ++ eof (RELEX-WINDOW); a comment that "
+     "can end with the text is re-lexed when text is appended behind it (COMMENT-LEX).",
      [{"rule": "TOKEN-ERRORS", "floor": 2}, {"rule": "TABLES", "filter": tag("T2"), "floor": 17},
-      {"rule": "LEN-UNITS", "filter": tag("arith"), "floor": 1}, {"rule": "RELEX-WINDOW", "floor": 6}])
+      {"rule": "LEN-UNITS", "filter": tag("arith"), "floor": 1}, {"rule": "RELEX-WINDOW", "floor": 6}, {"rule": "COMMENT-LEX", "floor": 5}])
 
 prop("C08", NEC + "Clauses: no content change is discarded, batched changes are converted against the advanced "
      "temporary text and applied to it, LSP columns advance by UTF-16 code units; lengths of different units are not mixed; "
      "client positions are interpreted only by get_insertion_index and positions sent out come only from as_position (POS-CONV).",
-     [{"rule": "TEXT-SYNC", "floor": 7}, {"rule": "LEN-UNITS", "floor": 3}, {"rule": "POS-CONV", "floor": 22}])
+     [{"rule": "TEXT-SYNC", "floor": 12}, {"rule": "LEN-UNITS", "floor": 3}, {"rule": "POS-CONV", "floor": 22}])
 
 prop("C09", NEC + "Clauses: operators are re-printed as the lexeme they were lexed from (T4); every Format impl prints "
      "every child that holds an identifier, literal or operator and every Error variant (TRAVERSE); every token slice "
@@ -93,53 +104,62 @@ prop("C10", NEC + "Clause: a composite node whose parser skips comments in front
      [{"rule": "COMMENT-PAIRING", "floor": 21}, {"rule": "DOC-IN-RANGE", "floor": 5}])
 
 prop("C11", NEC + "Clauses: the printer does not read byte positions (output is a function of tree and token kinds), the "
-     "indentation unit follows insertSpaces/tabSize, null is returned exactly on equality.",
-     [{"rule": "FMT-PURE", "floor": 5}])
+     "indentation unit follows insertSpaces/tabSize, null is returned exactly on equality; character literals are printed only with "
+     "escapes the lexer reads back (CHAR-ESCAPES: otherwise the formatted text re-lexes differently and a second run changes it again).",
+     [{"rule": "FMT-PURE", "floor": 5}, {"rule": "CHAR-ESCAPES", "floor": 2}])
 
 prop("C12", NEC + "Clauses: an entry's name range is resolved against the token slice cut with that same entry's range "
      "(FRAME S7 in goto.rs / features.rs); inside a procedure the identifier is resolved local-then-global through a "
      "LookupTable built from that procedure (SCOPE-ORDER); locations only for user declarations (ENTRY-GUARD) and "
-     "is_default() never holds for locals (ENTRY-KIND); lookups are never unwrapped (LOOKUP-NOPANIC).",
+     "is_default() never holds for locals (ENTRY-KIND); lookups are never unwrapped (LOOKUP-NOPANIC); locations sent out are converted "
+     "by as_pos_range only (POS-CONV)." + PARSER_REF,
      [{"rule": "FRAME", "filter": files("goto.rs", "features.rs", "table.rs"), "floor": 16},
       {"rule": "SCOPE-ORDER", "floor": 18}, {"rule": "ENTRY-GUARD", "floor": 6}, {"rule": "ENTRY-KIND", "floor": 4},
-      {"rule": "LOOKUP-NOPANIC", "floor": 14}, {"rule": "BUILTIN-SET", "floor": 2}])
+      {"rule": "LOOKUP-NOPANIC", "floor": 14}, {"rule": "BUILTIN-SET", "floor": 2}, {"rule": "POS-CONV", "floor": 22},
+      {"rule": "FRAME", "filter": files("parser.rs", "utility.rs"), "floor": 3}])
 
 prop("C13", NEC + "Clauses: the finder walkers descend into every statement/expression/type shape that can contain what "
      "they collect (TRAVERSE); every identifier found is shifted once per Reference crossed (FRAME in references.rs); "
      "find and rename use the same finder with the same arguments (SAME-FINDER); binding resolution is local-then-global "
-     "(SCOPE-ORDER).",
+     "(SCOPE-ORDER); every range sent out is converted by as_pos_range (UTF-16 columns) only (POS-CONV)." + PARSER_REF,
      [{"rule": "TRAVERSE", "filter": tag("vars", "calls", "types"), "floor": 51},
       {"rule": "FRAME", "filter": files("references.rs"), "floor": 56}, {"rule": "SAME-FINDER", "floor": 3},
-      {"rule": "SCOPE-ORDER", "floor": 18}, {"rule": "IDENT-RANGE", "floor": 4}])
+      {"rule": "SCOPE-ORDER", "floor": 18}, {"rule": "IDENT-RANGE", "floor": 4}, {"rule": "POS-CONV", "floor": 22},
+      {"rule": "FRAME", "filter": files("parser.rs", "utility.rs"), "floor": 3}])
 
 prop("C14", NEC + "Clauses: the call statement is located with node, origin and token slice in one frame on every step of "
      "the descent (FRAME in signature_help.rs) through every statement shape that can contain a call (TRAVERSE); hover "
      "resolves local-then-global (SCOPE-ORDER); signatures read kind, name, ref marker and type (DISPLAY-FIELDS); the hover range "
-     "is the cursor identifier's token range (IDENT-RANGE).",
+     "is the cursor identifier's token range (IDENT-RANGE), converted by as_pos_range (POS-CONV)." + PARSER_REF,
      [{"rule": "FRAME", "filter": files("signature_help.rs"), "floor": 8},
       {"rule": "TRAVERSE", "filter": tag("calls"), "floor": 18}, {"rule": "SCOPE-ORDER", "floor": 18},
-      {"rule": "DISPLAY-FIELDS", "floor": 4}, {"rule": "IDENT-RANGE", "floor": 4}])
+      {"rule": "DISPLAY-FIELDS", "floor": 4}, {"rule": "IDENT-RANGE", "floor": 4}, {"rule": "POS-CONV", "floor": 22},
+      {"rule": "FRAME", "filter": files("parser.rs", "utility.rs"), "floor": 3}])
 
 prop("C15", NEC + "Clauses: legend order = enum discriminants (T6); token positions of different units/frames are not "
      "compared and declaration slices are cut in the right frame (FRAME in semantic_tokens.rs); token lengths are UTF-16 "
      "(LEN-UNITS); the delta base advances exactly when a token is emitted (SEMTOK-PAIRING); identifiers inside a procedure are "
-     "classified through the local-then-global LookupTable (SCOPE-ORDER).",
+     "classified through the local-then-global LookupTable (SCOPE-ORDER)." + PARSER_REF,
      [{"rule": "TABLES-SEMTOK", "floor": 11}, {"rule": "FRAME", "filter": files("semantic_tokens.rs"), "floor": 7},
       {"rule": "LEN-UNITS", "filter": tag("lsp"), "floor": 1}, {"rule": "SEMTOK-PAIRING", "floor": 6},
-      {"rule": "SCOPE-ORDER", "floor": 18}])
+      {"rule": "SCOPE-ORDER", "floor": 18}, {"rule": "FRAME", "filter": files("parser.rs", "utility.rs"), "floor": 3}])
 
 prop("C16", NEC + "Clauses: every token slice / node pair that drives the position classification is in one frame (FRAME "
      "in completion.rs); variables are proposed from the LookupTable of the procedure that contains the cursor (SCOPE-ORDER); "
-     "search_* keep exactly the entry kinds they are named after, from the right table (KIND-FILTER).",
+     "search_* keep exactly the entry kinds they are named after, from the right table (KIND-FILTER); proposal lists are concatenated, "
+     "never merged by label or pruned (NO-MERGE: a variable and a procedure may share a name)." + PARSER_REF,
      [{"rule": "FRAME", "filter": files("completion.rs"), "floor": 18}, {"rule": "SCOPE-ORDER", "floor": 18},
-      {"rule": "KIND-FILTER", "floor": 7}])
+      {"rule": "KIND-FILTER", "floor": 7}, {"rule": "NO-MERGE", "floor": 24},
+      {"rule": "FRAME", "filter": files("parser.rs", "utility.rs"), "floor": 3}])
 
 prop("C17", NEC + "Clause: the procedure's token range is made absolute with the offset of the Reference it was reached "
      "through before the token vector is sliced (FRAME in fold.rs); the lines reported come from as_pos_range of the "
      "procedure's byte range (POS-CONV); exactly the Procedure declarations are kept, each mapped 1:1, nothing removed "
-     "afterwards (ONE-PER-ITEM).",
+     "afterwards (ONE-PER-ITEM); the document the ranges are computed from is the client's: batched changes are converted and "
+     "applied in the order sent (TEXT-SYNC batch, UPDATE-ORDER)." + PARSER_REF,
      [{"rule": "FRAME", "filter": files("fold.rs"), "floor": 2}, {"rule": "POS-CONV", "floor": 22},
-      {"rule": "ONE-PER-ITEM", "floor": 3}])
+      {"rule": "ONE-PER-ITEM", "floor": 3}, {"rule": "TEXT-SYNC", "filter": tag("batch"), "floor": 4},
+      {"rule": "UPDATE-ORDER", "floor": 3}, {"rule": "FRAME", "filter": files("parser.rs", "utility.rs"), "floor": 3}])
 
 prop("C18", NEC + "Clauses: every path through every Request arm of the three phase loops splits the request, "
      "turns the PreparedResponse into exactly one Response and sends it; phase x situation -> error code table; "
